@@ -41,7 +41,10 @@ CHECKS = {
     "C03": ("exploration",
             "Release-policy reference model written from doc/float-ip.md: 'kept until' is checked on every ownership change "
             "(each freed/re-keyed IP must be justified by policy, replicas seen in truth or lister, or an API release), "
-            "'released when due' at quiescent points (all events delivered, release queue drained, exactly one resync).",
+            "'released when due' at quiescent points (all events delivered, release queue drained, exactly one resync). The policy "
+            "in force is the one the workload declares (what IPAM stored is under test). A seeded overlap suspends one unbind of "
+            "a scaled-down immutable deployment right after it counted the app's IPs (IPAM-call pause point) while a second "
+            "unbind runs; an aggregate rule bounds how many IPs a deployment may lose in one step.",
             "runtime monitoring: lock-step reference model of the documented release policy at every step and at quiescent points",
             "3 (C03)", SIM_NOTE),
     "C04": ("exploration",
@@ -59,7 +62,8 @@ CHECKS = {
             "index (all indices in thorough) and per injection kind (clean failure, lost reply, crash before, crash after); "
             "after each, memory vs FloatingIP objects are compared field by field; crashes are followed by restart (plugin "
             "rebuilt from the store) + resync + pod-IP sync and the ownership / no-leak monitors; every clone start doubles as "
-            "a restart-reconstructs-same-state check. Lost-reply disagreements are counted, not judged.",
+            "a restart-reconstructs-same-state check. Lost-reply disagreements are counted, not judged. A cleanly failed bind "
+            "is followed by the scheduler's retry on another node, a failed reload by the periodic loop's retry with the same text.",
             "runtime monitoring with exhaustive per-operation fault/crash injection at API-call boundaries",
             "3 (C05)", SIM_NOTE),
     "C06": ("exploration",
@@ -100,14 +104,16 @@ CHECKS = {
             "A recording cloud provider's call log is replayed through a per-IP state machine after every step: no assign to a "
             "second node while assigned, every live bound pod's IPs assigned to its node, no owner change while assigned; "
             "provider calls are failed cleanly (every provider call index of sampled steps) and the real retry paths (release "
-            "queue, resync) are run; keys holding several IPs, API release and resync release are included.",
+            "queue, resync) are run; keys holding several IPs, API release and resync release are included; a cleanly failed "
+            "bind is retried on another offered node; while the provider has an IP assigned the FloatingIP object must name that node.",
             "runtime monitoring: per-IP state machine over the recorded provider call log",
             "3 (C10)", SIM_NOTE),
     "C11": ("exploration",
             "Key laws (injectivity, ParseKey round trip, prefix containment) over generated pods of every owner kind, and API "
             "laws against the real api.Controller served over HTTP on IPAMs populated with every key kind: paging shows each "
             "allocated IP exactly once, every listed releasable entry posted back releases exactly that IP (also with appType "
-            "omitted for statefulsets), cross-owner posts change nothing.",
+            "omitted for statefulsets), cross-owner posts change nothing, and an entry's outcome in a mixed batch equals its "
+            "outcome when posted alone (forced adjacencies of entries with and without appType).",
             "runtime monitoring: property-based law checking against the real key codec and HTTP API",
             "3 (C11)",
             "Trusted: the harness's own notion of which inputs are inside the quantifier (DNS-1123 names; kinds that lower-case to "
@@ -133,7 +139,10 @@ CHECKS = {
             "table, other pods' and foreign rules byte-identical), convergence/idempotence of the full sync from stale and "
             "foreign prior tables against a reference that does not use galaxy's chain hash, ports distinct/held/released "
             "(bind() probes), failed open leaves nothing bound; rejected batches are violations. Thorough calibrates the fake "
-            "against real iptables in unshare -n.",
+            "against real iptables in unshare -n. Second engine (cnisim -prop C14): the daemon above the handler - ADD/DEL over the "
+            "real /cni handler for pods with host ports, daemon restart (start-up pass), the GC clean-port callback, one failing "
+            "iptables operation per step position followed by kubelet DEL / repeated DEL / GC clean; NAT dump, this process's "
+            "sockets (/proc/net) and port-state files must show nothing of a torn-down or failed pod and everything of the others.",
             "runtime monitoring: state-comparison laws over a strict kernel model + real socket probes",
             "3 (C14)", "Trusted: harness/fakes/iptables.go (calibrated against iptables 1.8.9 nf_tables in the thorough tier)."),
     "C15": ("exploration",
@@ -141,7 +150,8 @@ CHECKS = {
             "a full sync the GLX sets, policy chains and local pod chains must equal those of a fresh manager synced on empty "
             "fakes with the same cluster state (prior states: other clusters, event sequences incl. cache-ahead-of-handler, "
             "planted stale GLX objects, restarts); a second sync must change nothing; foreign chains/rules/sets/tables must be "
-            "byte-identical; the fakes' reject logs must hold no missing-chain/missing-set/in-use rejection.",
+            "byte-identical; the fakes' reject logs must hold no missing-chain/missing-set/in-use rejection (also when one "
+            "ipset/iptables operation of the sync fails).",
             "runtime monitoring: differential convergence/idempotence oracle + reject log of a strict kernel model",
             "3 (C15)", "Trusted: harness/fakes (iptables part calibrated against the real tool by the C14 thorough tier; ipset "
             "semantics follow the kernel documentation, the ipset binary is not installed here)."),
@@ -149,7 +159,9 @@ CHECKS = {
             "A packet walker over the installed rules and sets (FORWARD -> GLX-EGRESS/GLX-INGRESS -> pod chain -> policy "
             "chains; -s/-d, -p, set matches with nomatch, multiport, conntrack NEW) is compared, flow by flow, with a reference "
             "evaluator of the Kubernetes NetworkPolicy API semantics over generated clusters with quotas for the interesting "
-            "policy shapes; every mismatch is classified by the policy shape that explains it.",
+            "policy shapes; every mismatch is classified by the policy shape that explains it. Besides fresh managers, managers "
+            "with a history are judged: cluster A synced, 1-3 mutations, then a full sync; and for single-mutation transitions "
+            "the state right after the event handler. History-only mismatches are attributed by causal substitution.",
             "runtime monitoring: differential verdict comparison packet-walk vs reference evaluator over generated flows",
             "3 (C16)", "Trusted: the reference evaluator (cmd/polsim/ref.go), the walker's iptables/ipset semantics, the fakes."),
     "C17": ("exploration",
@@ -158,7 +170,8 @@ CHECKS = {
             "container (running/created/paused/exited/dead/404/500/garbage/reset/slow; READY/NOTREADY/NotFound/Unavailable + pod "
             "lookup). Safety: nothing of a container is removed and no clean-port callback fires before a 'dead' answer was served "
             "for it, nothing is removed during runtime outages, non-container files stay. Bounded liveness in GC passes (counted by "
-            "sentinel inspects), not time.",
+            "sentinel inspects), not time. With the daemon's real clean-port callback over a strict iptables fake (transient and "
+            "permanent operation failures) a dead container's port mapping must never be orphaned (rules left, port file gone).",
             "runtime monitoring: event-order monitor (inspect log vs deletions/callbacks) with scripted runtime faults",
             "3 (C17)", "Trusted: the fake runtimes; cleanupVeth (netlink) is not monitored."),
     "C18": ("exploration",
